@@ -145,12 +145,18 @@ def readArgs : Nat → List Tok → Params × List Tok
   | 0, s => ([], s)
   | n + 1, s => let a := readArgument s; let r := readArgs n a.2; (a.1 :: r.1, r.2)
 
+/-- the value of the optional argument: the bracket content (one-group content loses its braces, D17 fix) or the default -/
+def optValue (o : Option (List Tok)) (d : List Tok) : List Tok :=
+  match o with
+  | some x => stripDelimited x
+  | none => d
+
 def collectNewcommand (nargs : Nat) (opt : Option (List Tok)) (s : List Tok) : Params × List Tok :=
   match opt with
   | none => let r := readArgs nargs s; (none :: r.1, r.2)
   | some d =>
     let o := readOptional s
-    let first := match o.1 with | some x => stripDelimited x | none => d
+    let first := optValue o.1 d
     let r := readArgs (nargs - 1) o.2
     (none :: some first :: r.1, r.2)
 
@@ -215,6 +221,19 @@ def hasNested : List Tok → Bool
   | [_] => false
   | t :: u :: us => if t.isParam then (if u.isParam then true else hasNested us) else hasNested (u :: us)
 
+def Tok.isEl : Tok → Bool | .el _ => true | _ => false
+
+/-- the same scan as it runs in Python: it reads `t.CC_PARAMETER` of every token it visits, an attribute that an
+    expanded macro instance travelling in the token stream does not have (`AttributeError`) -/
+def hasNestedE : List Tok → Except Err Bool
+  | [] => .ok false
+  | [t] => if t.isEl then .error .attributeError else .ok false
+  | t :: u :: us =>
+    if t.isEl then .error .attributeError
+    else if t.isParam then
+      (if u.isEl then .error .attributeError else if u.isParam then .ok true else hasNestedE us)
+    else hasNestedE (u :: us)
+
 /-- "get rid of one level of #s": a run of ≥ 2 `#` followed by another token loses its last `#` -/
 def stripHashes : Nat → List Tok → List Tok → List Tok
   | _, acc, [] => acc.reverse
@@ -249,7 +268,10 @@ def readDefParts (s : List Tok) : Except Err DefParts :=
   | some t =>
     -- a character token in the name position is a DOM text node: its `nodeName` is "#text"
     let nm := match t with | .ch _ _ => [35, 116, 101, 120, 116] | .cs nm => nm | .el nm => nm
-    if hasNested a.1 then
+    match hasNestedE a.1 with
+    | .error e => .error e
+    | .ok nested =>
+    if nested then
       match d.1 with
       | none => .error .typeError          -- `for t in a['definition']` on `None`
       | some b => .ok ⟨nm, stripHashes 0 [] a.1, some (stripHashes 0 [] b), d.2⟩
@@ -377,7 +399,7 @@ def tooBig (s : List Tok) : Bool := s.length > 4000
 
 mutual
 /-- one round of `TeX.__iter__`: the next token that is *yielded* (not expandable), and the state after it -/
-def next : Nat → St → Except Err (Option (Tok × St))
+def next (fx : Bool) : Nat → St → Except Err (Option (Tok × St))
   | 0, _ => .error .fuel
   | fuel + 1, st =>
     if tooBig st.input then .error .fuel else
@@ -386,10 +408,10 @@ def next : Nat → St → Except Err (Option (Tok × St))
     | t :: rest =>
       match macroNameOf t with
       | none => .ok (some (t, { st with input := rest }))
-      | some name => invoke fuel name rest st.env
+      | some name => invoke fx fuel name rest st.env
 
 /-- `createElement(name).invoke(tex)` followed by the push-back and `continue` of the loop -/
-def invoke : Nat → Name → List Tok → Env → Except Err (Option (Tok × St))
+def invoke (fx : Bool) : Nat → Name → List Tok → Env → Except Err (Option (Tok × St))
   | 0, _, _, _ => .error .fuel
   | fuel + 1, name, rest, env0 =>
       let g := getItem name env0
@@ -398,11 +420,11 @@ def invoke : Nat → Name → List Tok → Env → Except Err (Option (Tok × St
       | .defn args body =>
         match invokeDef args (body.getD []) rest with
         | .error e => .error e
-        | .ok (exp, rest') => next fuel ⟨exp ++ rest', env⟩
+        | .ok (exp, rest') => next fx fuel ⟨exp ++ rest', env⟩
       | .newcmd nargs opt body =>
         match invokeNewcommand nargs opt (body.getD []) rest with
         | .error e => .error e
-        | .ok (exp, rest') => next fuel ⟨exp ++ rest', env⟩
+        | .ok (exp, rest') => next fx fuel ⟨exp ++ rest', env⟩
       | .unrec nm => .ok (some (.el nm, ⟨rest, env⟩))
       | .prim .relax nm | .prim .endcsname nm => .ok (some (.el nm, ⟨rest, env⟩))
       | .prim .bgroup nm => .ok (some (.el nm, ⟨rest, push env⟩))
@@ -427,7 +449,8 @@ def invoke : Nat → Name → List Tok → Env → Except Err (Option (Tok × St
           match firstCs toks, digitsVal (n.1.getD []) with
           | none, _ => .error .indexError
           | _, none => .error .valueError
-          | some nmac, some k => .ok (some (.el nm, ⟨d.2, newcommand nmac k o.1 d.1 env⟩))
+          -- (after the D51 fix: a default that is exactly one group is stored without its braces)
+          | some nmac, some k => .ok (some (.el nm, ⟨d.2, newcommand nmac k (o.1.map stripDelimited) d.1 env⟩))
       | .prim .let_ nm =>
         let a := readTok rest
         let b := readTok (skipChar eqTok a.2)
@@ -435,16 +458,16 @@ def invoke : Nat → Name → List Tok → Env → Except Err (Option (Tok × St
         | some (.cs d), some (.cs s) => .ok (some (.el nm, ⟨b.2, letCs d s env⟩))
         | _, _ => .error .attributeError        -- character `\let`s are outside the model
       | .prim .csname _ =>
-        match csnameGo fuel [] ⟨rest, env⟩ with
+        match csnameGo fx fuel [] ⟨rest, env⟩ with
         | .error e => .error e
-        | .ok (nm, st') => next fuel { st' with input := .cs nm :: st'.input }
+        | .ok (nm, st') => next fx fuel { st' with input := .cs nm :: st'.input }
       | .prim .expandafter _ =>
-        match expAfter fuel rest env with
+        match expAfter fx fuel rest env with
         | .error e => .error e
-        | .ok (toks, st') => next fuel { st' with input := toks ++ st'.input }
+        | .ok (toks, st') => next fx fuel { st' with input := toks ++ st'.input }
 
 /-- `expandafter.invoke`: `[nexttok] + (aftertok expanded once)` -/
-def expAfter : Nat → List Tok → Env → Except Err (List Tok × St)
+def expAfter (fx : Bool) : Nat → List Tok → Env → Except Err (List Tok × St)
   | 0, _, _ => .error .fuel
   | fuel + 1, rest, env =>
     match rest with
@@ -452,23 +475,23 @@ def expAfter : Nat → List Tok → Env → Except Err (List Tok × St)
     | t1 :: t2 :: rest' =>
       match t2 with
       | .cs n2 =>
-        match expandOnce fuel n2 rest' env with
+        match expandOnce fx fuel n2 rest' env with
         | .error e => .error e
         | .ok (exp, st') => .ok (t1 :: exp, st')
       | _ => .ok ([t1, t2], ⟨rest', env⟩)
 
 /-- `for t in tex:` inside `\csname` until the `endcsname` element -/
-def csnameGo : Nat → List Nat → St → Except Err (Name × St)
+def csnameGo (fx : Bool) : Nat → List Nat → St → Except Err (Name × St)
   | 0, _, _ => .error .fuel
   | fuel + 1, acc, st =>
-    match next fuel st with
+    match next fx fuel st with
     | .error e => .error e
     | .ok none => .ok (acc, ⟨[], st.env⟩)
     | .ok (some (.el n, st')) => if n = endcsnameName then .ok (acc, st') else .error .typeError
-    | .ok (some (t, st')) => csnameGo fuel (acc ++ t.text) st'
+    | .ok (some (t, st')) => csnameGo fx fuel (acc ++ t.text) st'
 
 /-- `obj.invoke(tex)` as called by `\expandafter`: the returned tokens (or the object itself) -/
-def expandOnce : Nat → Name → List Tok → Env → Except Err (List Tok × St)
+def expandOnce (fx : Bool) : Nat → Name → List Tok → Env → Except Err (List Tok × St)
   | 0, _, _, _ => .error .fuel
   | fuel + 1, name, rest, env0 =>
       let g := getItem name env0
@@ -477,19 +500,24 @@ def expandOnce : Nat → Name → List Tok → Env → Except Err (List Tok × S
       | .defn args body =>
         match invokeDef args (body.getD []) rest with
         | .error e => .error e
-        | .ok (exp, rest') => .ok (if exp = [] then [.el name] else exp, ⟨rest', env⟩)
+        | .ok (exp, rest') =>
+          -- `if expanded is None: expanded = [aftertok]` (after the fix: an empty expansion stays empty);
+          -- `Definition.invoke` returns `None` only for a parameterless macro without stored text
+          .ok (if args = [] ∧ body = none then [.el name] else exp, ⟨rest', env⟩)
       | .newcmd nargs opt body =>
         match invokeNewcommand nargs opt (body.getD []) rest with
         | .error e => .error e
-        | .ok (exp, rest') => .ok (if exp = [] then [.el name] else exp, ⟨rest', env⟩)
+        | .ok (exp, rest') => .ok (exp, ⟨rest', env⟩)
       | .prim .csname _ =>
-        match csnameGo fuel [] ⟨rest, env⟩ with
+        match csnameGo fx fuel [] ⟨rest, env⟩ with
         | .error e => .error e
         | .ok (nm, st') => .ok ([.cs nm], st')
-      | .prim .expandafter _ => expAfter fuel rest env
+      | .prim .expandafter _ => expAfter fx fuel rest env
       | _ =>
-        -- every other class: run it through the loop once; it yields its own instance
-        match invoke fuel name rest env with
+        -- repaired variant (D49): anything else is unexpandable and stays in place, untouched
+        if fx then .ok ([.cs name], ⟨rest, env⟩) else
+        -- as is: every other class is invoked (an assignment such as `\def` is *executed*); it yields its own instance
+        match invoke fx fuel name rest env with
         | .error e => .error e
         | .ok none => .ok ([], ⟨[], env⟩)
         | .ok (some (t, st')) => .ok ([t], st')
@@ -503,14 +531,17 @@ def visibleOf : Tok → List Nat
   | _ => []
 
 /-- `TeX.parse()` as far as `textContent` without blanks is concerned -/
-def run : Nat → St → Except Err (List Nat)
+def run (fx : Bool) : Nat → St → Except Err (List Nat)
   | 0, _ => .error .fuel
   | fuel + 1, st =>
-    match next fuel st with
+    match next fx fuel st with
     | .error e => .error e
     | .ok none => .ok []
-    | .ok (some (t, st')) => (run fuel st').map (visibleOf t ++ ·)
+    | .ok (some (t, st')) => (run fx fuel st').map (visibleOf t ++ ·)
 
-def runProgram (fuel : Nat) (p : List Tok) : Except Err (List Nat) := run fuel ⟨p, initEnv⟩
+/-- the code as it is (known finding D49 present) -/
+def runProgram (fuel : Nat) (p : List Tok) : Except Err (List Nat) := run false fuel ⟨p, initEnv⟩
+/-- the repaired variant: `\expandafter` leaves an unexpandable second token alone -/
+def runProgramRepaired (fuel : Nat) (p : List Tok) : Except Err (List Nat) := run true fuel ⟨p, initEnv⟩
 
 end PlasVerif.Model.Macro
